@@ -19,7 +19,7 @@ def _servers():
     from lightstreamer_adapter.interfaces.metadata import MetadataProvider
 
     class D(DataProvider):
-        def initialize(self, p, c): pass
+        def initialize(self, p, c=None): pass
         def set_listener(self, l): pass
         def issnapshot_available(self, i): return False
         def subscribe(self, i): pass
